@@ -14,7 +14,7 @@ from vmon.ref import pairs
 
 ID = 'C24'
 RULE = ('crystal: 30% named (17 structures) else random Bravais type (16 systems) with 1-3 orbits, 1-2 species, <=3 sites of the '
-        'jumping species; cut-off inside a gap after neighbour shell 1..3; N in 1..3 limited to <= 700 states; origin states '
+        'jumping species; cut-off inside a gap after neighbour shell 1..3; N in 1..3 limited to <= 700 states (1200 in the thorough tier); origin states '
         'on/off; jump network in dx or lattice form; non-trivial = more than one star or more than one site; '
         'distinct = (structure kind, sites, |G|, jumps, N, origin)')
 ASSUMPTIONS = ['reference space group = vmon.ref.geom.full_group (brute force, tolerance 1e-6); cases where its order differs '
@@ -28,12 +28,12 @@ REQUIRED_OBS = {'starsets_checked': 150, 'eval:C24:states=bfs': 150, 'eval:C24:s
                 'nonmember_lookups': 100}
 CASE_TIMEOUT = 300
 PER_CASE = 3
-MAXSTATES = 700
 
 
 def cases(tier, seed):
-    n = 40 if tier == 'quick' else 480
-    return [{'seed': seed, 'idx': i, 'hashseed': i % 5} for i in range(n)]
+    if tier == 'quick':
+        return [{'seed': seed, 'idx': i, 'hashseed': i % 5} for i in range(40)]
+    return [{'seed': seed, 'idx': i, 'hashseed': i % 7, 'big': True} for i in range(600)]
 
 
 def fresh(stars, pg, key):
@@ -119,6 +119,7 @@ def run_case(case):
     mon = Mon()
     rng = gen.rng_for(case['seed'], case['idx'], 24)
     sample = None
+    MAXSTATES = 1200 if case.get('big') else 700
     for rep in range(PER_CASE):
         crys, chem, jn, desc, kind = pairs.rand_network(rng, gen)
         pg = pairs.PairGeom(crys.lattice, crys.basis, chem, jn)
